@@ -21,12 +21,16 @@ ExtractShortLike ==
   /\ \E idx \in DOMAIN words, form \in {"short", "supra", "id"} :
        /\ words[idx].k = (IF form = "short" THEN "cite" ELSE "oth")
        /\ LET ts == Start(words, idx)  te == ts + words[idx].n
-              pre == IF form = "short" THEN 1 ELSE 0              \* the page digits inside the token
-              win == pre + FwdLen(words, idx + 1, TRUE, 0)        \* prefix + following strings
               back == BackLen(words, idx - 1, 0)
-          IN \E matched \in BOOLEAN, pin \in 0..win, ante \in 0..back :
-               /\ (pin > 0 => (matched /\ pin >= pre))             \* a pin cite starts at the window start and covers the prefix
-               /\ pre <= words[idx].n
+          IN \E matched \in BOOLEAN, pre \in 0..words[idx].n, ante \in 0..back :
+             \* pre: the page digits inside the token (any length up to the token's); the window holds the prefix
+             \* and the following strings, truncated to MAX_MATCH_CHARS -- possibly in the middle of the prefix
+             \* (cut only when a token is appended: a bare prefix is never cut)
+             LET fl == FwdLen(words, idx + 1, TRUE, 0)
+                 win == IF fl = 0 THEN pre ELSE Min(pre + fl, MaxMatch) IN
+             \E pin \in 0..win :
+               /\ (form = "short") = (pre > 0)
+               /\ (pin > 0 => (matched /\ pin >= Min(pre, win)))   \* a pin cite starts at the window start and covers the visible prefix
                \* POST_SHORT_CITATION_REGEX is all-optional, so it always matches (possibly empty)
                /\ matched
                /\ LET se == PinSpanEnd(te, pre, matched, pin)
